@@ -55,6 +55,14 @@ def oracle(r):
 
 def pool_oracle(r):
     why = []
+    if r.get("kind") == "latejob":
+        if r.get("panic"):
+            return ["unbounded mode, Stop while the loop is fetching a due job: " + r["panic"]]
+        if r["execs_begun_after_wait"]:
+            why.append("unbounded mode: a job execution was in progress after Wait had returned (Stop came while the loop was fetching the job)")
+        if not r["wait_returned"]:
+            why.append("Wait did not return within 6 s after Stop")
+        return why
     if not r["wait_returned"]:
         why.append("worker-pool mode (limit %d): with all workers busy and the loop blocked handing a job over, Wait did not return within 6 s after %s"
                    % (r["limit"], "Stop" if r["variant"] == "stop" else "cancellation"))
@@ -92,7 +100,7 @@ def run_pool(binp, seed, rounds):
     rc, rows, out = lc.run_json([binp, "poolstop", str(seed), str(rounds)], timeout=600)
     if rc != 0:
         raise RuntimeError("looph poolstop failed: " + out[-2000:])
-    POOL[:] = [r for r in rows if r.get("kind") == "poolstop"]
+    POOL[:] = [r for r in rows if r.get("kind") in ("poolstop", "latejob")]
     return list(POOL)
 
 
@@ -162,9 +170,9 @@ def run(ctx):
     pool_rows = run_pool(binp, ctx.seed, 30 if ctx.tier == "quick" else 120)
     for r in [x for x in pool_rows if pool_oracle(x)][:1]:
         if any(pool_oracle(x) for x in run_pool(binp, ctx.seed + 5, 60)):
-            failures.append({"case": {"kind": "poolstop", "variant": r["variant"], "limit": r["limit"], "seed": ctx.seed, "n": n}, "why": pool_oracle(r),
+            failures.append({"case": {"kind": "poolstop", "variant": r.get("variant", r["kind"]), "limit": r.get("limit", 0), "seed": ctx.seed, "n": n}, "why": pool_oracle(r),
                              "how": "looph poolstop: WithWorkerLimit(n), n+2 jobs blocked on their context, then Stop or cancel, Wait, goroutine profile"})
-    nres = 24 if ctx.tier == "quick" else 200
+    nres = 27 if ctx.tier == "quick" else 198
     restart_rows, rf = lc.restart_failures(binp, ctx.seed, nres)
     failures += rf
     stale_rows, sf = lc.stale_worker_failures(binp, ctx.seed, nres)
